@@ -29,41 +29,15 @@ def _op_of(label):
     return {"op": "seek", "k": int(m.group(1))}
 
 
-def _monitor(wd, trace_path):
-    n = sum(1 for _ in open(trace_path))
-    if os.path.abspath(trace_path) != os.path.join(wd, "trace.ndjson"):
-        os.replace(trace_path, os.path.join(wd, "trace.ndjson"))
-    r = vf.tlc(wd, "SeekMon.tla", "SeekMon.cfg", workers=1, timeout=1200)
-    vs = r.prints("VERDICT")
-    if r.rc != 0 or len(vs) != 1:
-        raise vf.Infra("SeekMon did not produce a verdict:\n" + r.out[-2000:])
-    v = vs[0]
-    if v["consumed"] != n:
-        raise vf.Infra(f"monitor consumed {v['consumed']} of {n} events")
-    return v, r
+def _monitor(wd, tp):
+    return vf.monitor(wd, "SeekMon.tla", "SeekMon.cfg", tp)
 
 
 def _execute(vh, wd, scenarios, seed, name):
-    sp = os.path.join(wd, name + ".scenarios.ndjson")
-    vf.write_ndjson(sp, scenarios)
-    tp = os.path.join(wd, name + ".trace.ndjson")
-    with open(tp, "w") as out:
-        import subprocess
-        p = subprocess.run([vh, "c08", "--seed", str(seed), "--scenarios", sp], stdout=out,
-                           stderr=subprocess.PIPE, text=True, timeout=1200)
-    if p.returncode != 0:
-        raise vf.Infra("vh c08 failed: " + p.stderr[-2000:])
-    return tp
+    return vf.execute(vh, "c08", wd, scenarios, seed, name)
 
 
-def _inits(trace_path):
-    m = {}
-    with open(trace_path) as f:
-        for line in f:
-            if '"ev":"Init"' in line:
-                e = json.loads(line)
-                m[e["t"]] = e
-    return m
+_inits = vf.inits
 
 
 def run(tier, seed):
@@ -140,8 +114,6 @@ def run(tier, seed):
     rc = out.report()
 
     samples = [{"scenario": {k: s[k] for k in ("cfg", "ops", "src")}} for s in scenarios[:2] + scenarios[-1:]]
-    with open(os.path.join(wd, "trace.ndjson")) as f:
-        pass
     vf.write_evidence(PROP, tier, seed, "model_checking", {
         "states": x.distinct + vr.distinct,
         "transitions": x.generated + vr.generated,
